@@ -26,6 +26,65 @@ def gen_scenario(rng):
     return {"world": w, "requests": reqs, "env0": env0}
 
 
+def contrib(name, rng=None):
+    up = name.upper()
+    out = ["envPrepend(PATH, ${PRODUCT_DIR}/bin)", "envAppend(LD_LIBRARY_PATH, ${PRODUCT_DIR}/lib)",
+           "envAppend(XLIST, ${PRODUCT_DIR}/x, \";\")", "envSet(%s_HOME, ${PRODUCT_DIR}/home)" % up,
+           "addAlias(run_%s, echo %s)" % (name, name)]
+    if rng is not None:
+        out = [l for l in out if rng.random() < 0.8] or out[:1]
+    return out
+
+
+def gen_switch_then_failure(rng):
+    """a product that is switched from one version to another inside an OPTIONAL subtree which then fails one or two
+    levels further down (so the switch is rolled back with the environment), and is asked for again afterwards - in the
+    version it was rolled back to, in the version of the failed subtree, or in a third one; then unsetup of the top
+    product.  Random parts: which versions, how deep the failure is, what fails (an undeclared product, an undeclared
+    version, an undefined variable), whether the subtree looks the product up once or twice, the order of the lines"""
+    b, helper, plugin, app, top = "p1", "p2", "p3", "p4", "p5"
+    vs = list(S.VERSIONS)
+    rng.shuffle(vs)
+    v1, v2, v3 = vs
+    tail = rng.choice(["setupRequired(ghost)", "setupRequired(%s 9.9)" % b, "envPrepend(PATH, ${UNDEFINED_VARIABLE}/bin)"])
+    prods = {b: {v: contrib(b) for v in S.VERSIONS}}
+    deep = rng.random() < 0.7
+    if deep:
+        prods[helper] = {"1.0": contrib(helper, rng) + (["setupRequired(%s %s)" % (b, v2)] if rng.random() < 0.7 else []) + [tail]}
+        prods[plugin] = {"1.0": contrib(plugin, rng) + ["setupRequired(%s %s)" % (b, v2), "setupRequired(%s)" % helper]}
+    else:
+        prods[helper] = {"1.0": contrib(helper, rng)}
+        prods[plugin] = {"1.0": contrib(plugin, rng) + ["setupRequired(%s %s)" % (b, v2), "setupRequired(%s)" % helper, tail]}
+    again = rng.choice([v3, v3, v1, v2, None])
+    prods[app] = {"1.0": contrib(app, rng) + ["setupRequired(%s)" % (b if again is None else "%s %s" % (b, again))]}
+    lines = ["setupRequired(%s %s)" % (b, v1), "setupOptional(%s)" % plugin, "setupRequired(%s)" % app]
+    if rng.random() < 0.3:
+        lines = lines[1:] + lines[:1] if rng.random() < 0.5 else [lines[1], lines[0], lines[2]]
+    prods[top] = {"1.0": contrib(top, rng) + lines}
+    w = {"root": rng.choice(["stack", "stack", "stack dir"]), "products": prods,
+         "current": {b: rng.choice(S.VERSIONS), helper: "1.0", plugin: "1.0", app: "1.0", top: "1.0"}, "generic": []}
+    env0 = {"PATH": "/usr/bin:/bin"}
+    if rng.random() < 0.4:
+        env0["XLIST"] = rng.choice(["/pre/x;/pre/y", ""])
+    return {"world": w, "requests": [{"name": top, "fwd": True}, {"name": top, "fwd": False}], "env0": env0}
+
+
+def gen_envunset_own_dir(rng):
+    """a table may remove the product's own directory variable again (envUnset(P1_DIR)): the product is set up all the
+    same (SETUP_P1 records it) and unsetup - of the product itself, or of a product that depends on it - must still
+    find it and take everything else it contributed away"""
+    lo, top = "p1", "p2"
+    where = rng.choice(["dep", "top", "both"])
+    unset = lambda n: ["envUnset(%s_DIR)" % n.upper()]
+    prods = {lo: {v: contrib(lo, rng) + (unset(lo) if where in ("dep", "both") else []) for v in S.VERSIONS[:2]},
+             top: {"1.0": contrib(top, rng) + (unset(top) if where in ("top", "both") else []) +
+                   ["%s(%s%s)" % (rng.choice(["setupRequired", "setupOptional"]), lo, rng.choice(["", " 1.0", " 2.0"]))]}}
+    w = {"root": "stack", "products": prods, "current": {lo: rng.choice(S.VERSIONS[:2]), top: "1.0"}, "generic": []}
+    name = rng.choice([top, top, lo])
+    return {"world": w, "requests": [{"name": name, "fwd": True}, {"name": name, "fwd": False}],
+            "env0": {"PATH": "/usr/bin:/bin"}}
+
+
 def norm_env(res, env):
     """path-like values as duplicate-free lists of non-empty elements (unset = empty); bookkeeping variables dropped"""
     delims = {}
@@ -117,6 +176,12 @@ def run(ctx):
         ctx.sample({"requests": s["requests"], "env0": s["env0"], "products": s["world"]["products"]})
     for i in range(0, len(scenarios), 400):
         S.run_scenarios(ctx, scenarios[i:i + 400], oracle)
+    # directed families: a version switch inside an optional subtree that fails further down and is rolled back, the
+    # product being asked for again afterwards; tables that remove their own directory variable
+    directed = [gen_switch_then_failure(ctx.rng) for _ in range(ctx.size(40, 600))] + \
+               [gen_envunset_own_dir(ctx.rng) for _ in range(ctx.size(16, 200))]
+    for i in range(0, len(directed), 400):
+        S.run_scenarios(ctx, directed[i:i + 400], oracle)
     # setup then unsetup on worlds whose table texts vary (see harness/setupsim.py gen_scenario_text): the text-fed
     # model of coq/Model/SetupText.v is the one that reads them
     textual = [S.gen_scenario_text(ctx.rng, inverse=True) for _ in range(ctx.size(60, 900))]
